@@ -513,28 +513,43 @@ def status_typestate(db, cx, rule, eff):
         "inactive": {D + "ProcessSecondariesExecutor::operator()"},
         "initializing": set(),
     }
+    order_allowed = {"alive": {"pre"}, "killed": {"along", "post"}, "inactive": {"end"}}
+    setters = {}
     for f, ev in sites:
         en = ev["args"][0].get("enum", "")
         val = en.split("::")[-1] if en else None
         if "optical" in f.name:
             continue
+        setters.setdefault(val, set()).add(f.name)
+    reach_orders = {}
+    for val, funcs in setters.items():
+        for fn in funcs:
+            reach_orders[fn] = {order for (_cls, order) in eff.who_reaches([fn])}
+    from common import _helper_of_owner
+    for f, ev in sites:
+        en = ev["args"][0].get("enum", "")
+        val = en.split("::")[-1] if en else None
+        if "optical" in f.name:
+            continue
+        how = "listed setter"
         ok = val in allowed and f.name in allowed[val]
+        if not ok and val in allowed and _helper_of_owner(db, f.name, allowed[val]):
+            ok, how = True, "helper called only by listed setters"
+        if not ok and val in order_allowed and reach_orders.get(f.name) \
+                and reach_orders[f.name] <= order_allowed[val]:
+            # a setter outside the table is accepted when every step action that can reach it
+            # runs at an order where this transition is a forward move
+            ok, how = True, "reached only from %s actions" % "/".join(sorted(reach_orders[f.name]))
         cx.ob(rule + "-status-typestate", "status(%s) in %s" % (val or ev["args"][0]["t"], f.name),
-              ok, "call at %s" % short(ev["loc"]), short(ev["loc"]),
+              ok, "call at %s (%s)" % (short(ev["loc"]), how), short(ev["loc"]),
               why="setting this status from this function lets a finished slot be revived or an "
                   "active one be dropped (status must only move initializing->alive->killed/"
                   "errored->inactive)")
-    order_allowed = {"alive": {"pre"}, "killed": {"along", "post"}, "inactive": {"end"}}
-    for val, orders in order_allowed.items():
-        for f, ev in sites:
-            pass
     # reachability by order of the functions that set each value
-    for val, funcs in allowed.items():
-        if not funcs or val == "errored":
-            continue
+    for val, orders in sorted(order_allowed.items()):
+        funcs = set(allowed[val]) | setters.get(val, set())
         effects.check_orders(cx, db, eff, rule + "-status-orders", "status(%s) setters" % val,
-                             sorted(funcs), {"alive": {"pre"}, "killed": {"along", "post"},
-                                             "inactive": {"end"}}[val],
+                             sorted(funcs), orders,
                              "within a step the status may only move forward: alive at pre-step, "
                              "killed along/post, inactive at end")
     # inactive only on the killed edge
